@@ -52,6 +52,8 @@ def op_jdn(op):
         return [Kw("write-bad"), op[1], op[2]]
     if k == "badw":
         return [Kw("badw"), op[1], op[2], op_jdn(op[3])]
+    if k == "dlc":
+        return [Kw("dlc"), op[1], op_jdn(op[2])]
     raise ValueError(op)
 
 
@@ -101,7 +103,11 @@ def make_actions(cfg):
             w = idle[0]
             # ("sleep", 2) coincides with the dl-2 deadline of ANOTHER worker started at the same instant
             # (never with a deadline of the same fiber: that order is unspecified)
-            ops = [("sleep", 1), ("sleep", 2), ("sleep", 3), ("dl", 2, ("sleep", 3)), ("dl", 2, ("sleep", 1))]
+            ops = [("sleep", 1), ("sleep", 2), ("sleep", 3), ("dl", 2, ("sleep", 3)), ("dl", 2, ("sleep", 1)),
+                   # a bare (ev/deadline 1) set inside a nested fiber that has ended: it must not reach the task's next wait
+                   ("dlc", 1, ("sleep", 3))]
+            if nchan:
+                ops.append(("dlc", 1, ("take", 0)))
             for c in range(nchan):
                 ops += [("give", c, base), ("take", c), ("close", c),
                         ("dl", 2, ("give", c, base)), ("dl", 2, ("take", c))]
@@ -135,7 +141,7 @@ def make_actions(cfg):
             busy_p = {i for i, pp in enumerate(m.pipes) if pp.reader is not None and m.live_wid(pp.reader[0], pp.reader[1])}
 
             def reads(o):
-                o2 = o[2] if o[0] == "dl" else (o[3] if o[0] == "badw" else o)
+                o2 = o[2] if o[0] in ("dl", "dlc") else (o[3] if o[0] == "badw" else o)
                 return o2[1] if o2[0] in ("read", "chunk") else None
             ops = [o for o in ops if reads(o) is None or reads(o) not in busy_p]
             if cfg.get("focus") == "proc":
@@ -171,6 +177,8 @@ def shape(a):
             return op[0] + ("+timeout" if op[3] is not None else "")
         if op[0] == "badw":
             return "badw(" + osh(op[3]) + ")"
+        if op[0] == "dlc":
+            return "dlc(" + osh(op[2]) + ")"
         return op[0]
     return a[0] + (":" + osh(a[2]) if a[0] == "start" else "")
 
@@ -261,6 +269,8 @@ def replay_text(cfg, hist, what):
             return "(do (protect (ev/write ((pipes %d) 1) 12345 %s)) %s)" % (op[1], op[2], oe(op[3]))
         if k == "pwait":
             return "(os/proc-wait (procs %d))" % op[1]
+        if k == "dlc":
+            return "(do (resume (coro (ev/deadline %s) :done)) %s)" % (op[1], oe(op[2]))
     lines.insert(3, '(def procs (seq [_ :range [0 %d]] (os/spawn ["/bin/sh" "-c" "read x; exit 3"] :px {:in :pipe})))' % cfg.get("nprocs", 0))
     for a in hist:
         if a[0] == "start":
